@@ -406,12 +406,16 @@ def expected_services(model, facts=None):
         route = []
         if row['path']:
             typed = row['path'].split(' | ')
-            for i, name in enumerate(typed):
+            kept = 0
+            for pos, name in enumerate(typed):
+                if name == row.get('unusable'):
+                    continue        # loose route: a hop that cannot be a constraint is skipped, the others keep their order
+                i, kept = kept, kept + 1
                 if eff.get(name) == 'ILA':
                     # documented in correct_xls_route_list: the amplifier of the ILA site whose next (non fused) site
                     # is named later in the list
-                    facing = [d for d in nb[name] if next_site(model, name, d) in typed[i + 1:]
-                              and next_site(model, name, d) not in typed[:i]]
+                    facing = [d for d in nb[name] if next_site(model, name, d) in typed[pos + 1:]
+                              and next_site(model, name, d) not in typed[:pos]]
                     uid = (facts or {'line': {}})['line'].get((name, facing[0])) if len(facing) == 1 else None
                     route.append((i, uid, hop))
                 else:
@@ -508,6 +512,8 @@ def _labels_valid(ctx, model):
         for r in model['service']:
             if r['path']:
                 ctx.label('service:route-list:' + ('strict' if r['loose'] == 'no' else 'loose'))
+                if r.get('unusable'):
+                    ctx.label('service:route-list:unusable-hop-skipped')
                 if any(eff.get(h) == 'ILA' for h in r['path'].split(' | ')):
                     ctx.label('service:route-list:ila-hop')
             if r['disjoint'] is not None:
@@ -516,6 +522,15 @@ def _labels_valid(ctx, model):
         ctx.label('ghost-rows')
     line = any(v in ('ILA', 'FUSED') for v in eff.values())
     ctx.nontrivial(asym and line and bool(eq or model.get('service')))
+
+
+def _convert_services(r, equipment, network, model):
+    from gnpy.tools.json_io import convert_service_sheet
+    from gnpy.tools.service_sheet import read_service_sheet
+    dx = convert_service_sheet(r.xlsx, equipment, network, network_filename=r.xlsx, bidir=bool(model.get('bidir')))
+    # same designed network for the .xls branch: the two topologies were just found identical
+    ds = read_service_sheet(r.xls, equipment, network, network_filename=r.xls, bidir=bool(model.get('bidir')))
+    return dx, ds
 
 
 def run_valid(model, ctx):
@@ -540,11 +555,9 @@ def run_valid(model, ctx):
                 return
             equipment, network = load_and_design(ox.value)
             if model.get('service'):
-                dx = convert_service_sheet(r.xlsx, equipment, network, network_filename=r.xlsx,
-                                           bidir=bool(model.get('bidir')))
-                # same designed network for the .xls branch: the two topologies were just found identical
-                ds = read_service_sheet(r.xls, equipment, network, network_filename=r.xls,
-                                        bidir=bool(model.get('bidir')))
+                import contextlib, io
+                with contextlib.redirect_stdout(io.StringIO()):     # the conversion prints its warnings
+                    dx, ds = _convert_services(r, equipment, network, model)
                 if dx != ds:
                     ctx.violation('xls-xlsx-differ:services', _first_diff(dx, ds))
                 check_services(ctx, model, dx, facts=facts)
